@@ -35,7 +35,12 @@ def stripSign (cs : List Char) : Bool × List Char :=
 
 def pow10 (e : Int) : Rat := if e ≥ 0 then (10 : Rat) ^ e.toNat else 1 / (10 : Rat) ^ (-e).toNat
 
-def isSpace (c : Char) : Bool := c = ' ' || c = '\t' || c = '\n' || c = '\r' || c = '\x0b' || c = '\x0c'
+/-- `str.isspace` of one character = what `str.split()`, `str.strip()`, `float()` and the `\s` of `re` treat as white space
+    (CPython 3.12: 29 code points) -/
+def isSpace (c : Char) : Bool :=
+  c = ' ' || c = '\t' || c = '\n' || c = '\r' || c = '\x0b' || c = '\x0c' ||
+  c = '\x1c' || c = '\x1d' || c = '\x1e' || c = '\x1f' || c = '\u0085' || c = '\u00a0' || c = '\u1680' ||
+  (decide ('\u2000' ≤ c) && decide (c ≤ '\u200a')) || c = '\u2028' || c = '\u2029' || c = '\u202f' || c = '\u205f' || c = '\u3000'
 
 def parseFloatChars (cs0 : List Char) : Option (X Rat) :=
   let cs := ((cs0.dropWhile isSpace).reverse.dropWhile isSpace).reverse.map Char.toLower
